@@ -9,8 +9,8 @@ DEFAULT_SEL = 0xDEADBEEF
 
 
 class Scenario:
-    def __init__(self, top, direct, oracle, desc):
-        self.top, self.direct, self.oracle, self.desc = top, direct, oracle, desc
+    def __init__(self, top, direct, oracle, desc, mode=0):
+        self.top, self.direct, self.oracle, self.desc, self.mode = top, direct, oracle, desc, mode
         # oracle: {tag: (must_fail: bool, text)}
 
 
@@ -22,11 +22,13 @@ def build_scenarios(rnd, pragma, full=True, sample=None):
     if sample is not None and sample < len(combos):
         combos = rnd.sample(combos, sample)
     for ko, xo, d, ki in combos:
-        xi = rnd.choice(cc.EXITS)
-        inner_static = (ki in ("view", "getter")) and rnd.random() < 0.7 or rnd.random() < 0.1
+        if ko in cc.FIXED_EXIT and xo != "retbranch":
+            continue
+        xi = "retbranch" if ki in cc.FIXED_EXIT else rnd.choice(cc.EXITS)
+        inner_static = (ki in ("view", "getter", "libview")) and rnd.random() < 0.7 or rnd.random() < 0.1
         direct = d == 1 and rnd.random() < 0.3
         outer_mk = cc.model_kind(ko, pragma)
-        static_ctx = ko == "view"  # below a view outer everything is static
+        static_ctx = ko in ("view", "libview", "rawst")  # below a view outer / static raw_call everything is static
         oracle = {}
 
         def sub(target, tag, static=False, holders=()):
@@ -96,10 +98,11 @@ class World:
         enc = lambda a: bytes(12) + bytes.fromhex(a[2:])  # noqa
         self.A = self.ch.deploy(bytes.fromhex(attacker_out["bytecode"][2:]))
         vb = bytes.fromhex(victim_out["bytecode"][2:])
-        self.V = [self.ch.deploy(vb + enc(self.A)), self.ch.deploy(vb + enc(self.A))]
+        self.vb = vb
+        self.V = [self.ch.deploy(vb + enc(self.A) + bytes(64)), self.ch.deploy(vb + enc(self.A) + bytes(64))]
         if self.A is None or None in self.V:
             raise RuntimeError("deployment failed")
-        self.mi = {k.split("(")[0]: int(v, 16) for k, v in victim_out["method_identifiers"].items()}
+        self.mi = {k: int(v, 16) for k, v in victim_out["method_identifiers"].items()}
         self.ami = {k.split("(")[0]: int(v, 16) for k, v in attacker_out["method_identifiers"].items()}
         al = attacker_out["layout"]["storage_layout"]
         self.nch, self.act, self.jl = al["nch"]["slot"], al["act"]["slot"], al["jlog"]["slot"]
@@ -117,7 +120,9 @@ class World:
         pid = t.child.pid if t.child is not None else 0
         if t.kind == "default":
             return self.V[t.c], DEFAULT_SEL, pid | (cc.EXIT_CODE[t.exit] << 8)
-        return self.V[t.c], self.mi[cc.entry_name(t)], pid
+        if t.kind == "nocode":
+            return self.ctor_addr, DEFAULT_SEL, 0
+        return self.V[t.c], self.mi[cc.entry_sig(t)], pid
 
     def install(self, top):
         nodes = cc.assign_pids(top)
@@ -133,7 +138,7 @@ class World:
 
     def tx(self, t):
         addr, sel, arg = self.target(t)
-        data = sel.to_bytes(4, "big") + arg.to_bytes(32, "big")
+        data = sel.to_bytes(4, "big") + arg.to_bytes(32, "big") + (7).to_bytes(32, "big")
         r = self.ch.call(addr, data)
         ret = int.from_bytes(r.out, "big") if (r.ok and len(r.out) == 32) else 0
         n = self.ch.storage(self.A, self.jl)
@@ -142,6 +147,48 @@ class World:
         cells = [None, None, 0] if self.transient else [self.ch.storage(self.V[0], self.lock_slot),
                                                          self.ch.storage(self.V[1], self.lock_slot), 0]
         return [int(r.ok), ret] + cells + lg, data
+
+    def observe_after(self, r_ok, r_out):
+        ret = int.from_bytes(r_out, "big") if (r_ok and len(r_out) == 32) else 0
+        n = self.ch.storage(self.A, self.jl)
+        lg = [self.ch.storage(self.A, self.jl + 1 + i) for i in range(n)]
+        self.ch.evm.insert_account_storage(self.A, self.jl, 0)
+        cells = [None, None, 0] if self.transient else [self.ch.storage(self.V[0], self.lock_slot),
+                                                         self.ch.storage(self.V[1], self.lock_slot), 0]
+        return [int(r_ok), ret] + cells + lg
+
+    def run_ctor(self, scen):
+        """scen.top = ANode script run from the constructor (mode 1: plain callback, mode 2: through the library's
+        @nonreentrant internal function).  The contract under construction takes the place of V0."""
+        sid = self.ch.snapshot()
+        try:
+            enc = lambda a: bytes(12) + bytes.fromhex(a[2:])  # noqa
+            # learn the address the deployment will get, then script the attacker against it
+            s2 = self.ch.snapshot()
+            probe_addr = self.ch.deploy(self.vb + enc(self.A) + bytes(64))
+            self.ch.revert(s2)
+            self.ch.reset_transient()
+            self.ctor_addr = probe_addr
+            old_v0 = self.V[0]
+            self.install(scen.top)
+            init = self.vb + enc(self.A) + scen.top.pid.to_bytes(32, "big") + scen.mode.to_bytes(32, "big")
+            addr = self.ch.deploy(init)
+            ok = addr is not None
+            if ok and addr != probe_addr:
+                raise RuntimeError("deployment address changed")
+            self.V[0] = probe_addr if ok else old_v0
+            obs = [self.observe_after(ok, b"")]
+            calls = ["deploy:" + init[-96:].hex()]
+            if ok:
+                for t in probe_nodes():
+                    o, data = self.tx(t)
+                    obs.append(o)
+                    calls.append(data.hex())
+            self.V[0] = old_v0
+            return obs, calls
+        finally:
+            self.ch.revert(sid)
+            self.ch.reset_transient()
 
     def run(self, scen):
         """Execute scenario from the pristine post-deployment state.  Transient storage is NOT reset
@@ -186,3 +233,31 @@ def oracle_violations(scen, real):
         if p[0] != 1:
             bad.append(f"lock not released: follow-up call to V{i}.e_np_fall reverted after the outermost call ended")
     return bad
+
+
+# ---------------------------------------------------------------- constructor scenarios
+def ctor_scenarios(pragma):
+    """the constructor calls out (mode 1) / enters the library's @nonreentrant internal function which calls out
+    (mode 2); the attacker calls the contract under construction (no code yet: succeeds, runs nothing), another
+    victim (independent lock) and itself."""
+    out = []
+    for mode in (1, 2):
+        for variant in range(3):
+            under = cc.VNode(0, "nocode", "fall", None)
+            subs = [(under, False, True, False, 2)]
+            if variant >= 1:
+                subs.append((cc.VNode(1, "np", "retbranch", None), False, True, False, 3))
+            if variant == 2:
+                subs.append((cc.ANode([(cc.VNode(0, "nocode", "fall", None), True, True, False, 4)]), False, True, False, 5))
+            top = cc.ANode(subs)
+            out.append(Scenario(top, False, {}, f"ctor mode={mode} variant={variant}", mode=mode))
+    return out
+
+
+def ctor_model_expr(scen, pragma, transient):
+    P = "transient_params" if transient else "storage_params"
+    kind = "Unprot" if scen.mode == 1 else "Nonview"
+    # ctor: [lock]; callback (propagating); write sink; [unlock]
+    dep = f"Call 0%nat {kind} (BSub ({cc.coq_node(scen.top, pragma)}) false false None (BWrite (BEnd false)))"
+    probes = "; ".join(cc.coq_node(p, pragma) for p in probe_nodes())
+    return f"observe_seq {P} false [{dep}; {probes}] (init_state {P})"
